@@ -29,6 +29,8 @@ CONSTANTS Types,      \* agent type names
           Ops,        \* names of the enabled operations
           L           \* bound on Len(hist) in generator configurations
 
+Unit == 100
+
 VARIABLES agents,   \* Seq of [id, ty, st, v, inbox] in creation order (Model.agents)
           nextId,   \* Model.next_agent_id
           tmap,     \* Model.agent_type_map : type -> Seq of ids
@@ -291,27 +293,28 @@ RunStep ==           \* Model.run_step(step): one externally driven scheduler st
                   q |-> Queries(r.S.agents, r.S.tm, r.S.nid)])
     /\ UNCHANGED dt
 
-\* whole run: rounds start..stop, 100/dt steps per round, time = round + step*dt
+\* whole run: rounds start..stop, Unit/dt steps per round, time = round + step*dt
+\* (times, dt and delays are integers in 1/Unit time units; Unit is 100 unless a configuration overrides the definition, e.g. 1000 for dt = 0.125)
 RECURSIVE RunLoop(_, _, _, _, _, _, _)
 RunLoop(S, rnd, s, stop, collect, d, acc) ==
     \* acc = [handled, calls (Seq of [t100, calls]), stats (Seq of [t100, stats]), due, dueAlive, gone, born]
     IF rnd > stop THEN [S |-> S, acc |-> acc]
     ELSE LET r == StepF(S)
-             t == rnd * 100 + s * d
-             last == rnd = stop /\ s = (100 \div d) - 1
+             t == rnd * Unit + s * d
+             last == rnd = stop /\ s = (Unit \div d) - 1
              doCollect == collect \/ last
              acc2 == [handled |-> acc.handled \o r.handled,
                       calls |-> Append(acc.calls, [t100 |-> t, gone |-> r.gone, born |-> r.born,
                                                    calls |-> r.calls \o (IF doCollect THEN <<"collect">> ELSE <<>>)]),
                       stats |-> IF doCollect THEN Append(acc.stats, [t100 |-> t, stats |-> Stats(r.S.agents)]) ELSE acc.stats,
                       due |-> acc.due \cup r.due, dueAlive |-> acc.dueAlive \cup r.dueAlive]
-         IN IF s + 1 < 100 \div d THEN RunLoop(r.S, rnd, s + 1, stop, collect, d, acc2)
+         IN IF s + 1 < Unit \div d THEN RunLoop(r.S, rnd, s + 1, stop, collect, d, acc2)
             ELSE RunLoop(r.S, rnd + 1, 0, stop, collect, d, acc2)
 
 Run(spec) ==         \* Model.run_specs(start, stop, dt); Model.run(collect_data): spec = <<start, stop, collect_data, dt>>
-    /\ "Run" \in Ops /\ 100 % spec[4] = 0
+    /\ "Run" \in Ops /\ Unit % spec[4] = 0
     /\ LET start == spec[1]  stop == spec[2]  collect == spec[3]  d == spec[4]
-           n == (stop - start + 1) * (100 \div d)
+           n == (stop - start + 1) * (Unit \div d)
        IN /\ start <= stop /\ step + n <= MaxSteps
           /\ (d # dt => mq = <<>>)      \* delays in flight are counted in steps of the dt they were sent under
           /\ dt' = d
